@@ -28,6 +28,26 @@ func checkC03(c *core.Ctx, pc pcase) {
 	}
 	c.OpResult(p.ID(), out.Accepted)
 	if !out.Accepted {
+		// a rejected input must not become a successful parse of the SAME bytes merely because
+		// something follows them: the result may not depend on trailing bytes in either direction
+		if p.HasRem && len(pc.in) > 0 {
+			rx := core.NewRand(c.Seed, "c03rej", p.ID(), len(pc.in))
+			for _, x := range [][]byte{rx.Bytes(1 + rx.Pick(24)), rx.Bytes(64 + rx.Pick(64))} {
+				ext := append(append([]byte{}, pc.in...), x...)
+				o2, pk, _, _ := callParser(c, p, ext)
+				c.Eval(1)
+				if pk || !o2.Accepted || len(o2.Rem) > len(ext) {
+					continue
+				}
+				if used := len(ext) - len(o2.Rem); used <= len(pc.in) {
+					sh := pc.fullShape()
+					sh["appended"] = len(x)
+					c.Violate(p.Name, "accepted-only-when-bytes-follow", sh, pc.in, fmt.Sprintf("the %d-byte input is rejected (%v), but followed by %d arbitrary bytes it parses, consuming %d bytes", len(pc.in), out.Err, len(x), used))
+					return
+				}
+			}
+			c.Bucket("rejected-stays-rejected-with-trailing-bytes/" + p.Kind)
+		}
 		return
 	}
 	in := pc.in
